@@ -96,7 +96,7 @@ def scan(mod):
                 for t in n.targets:
                     if isinstance(t, ast.Name):
                         class_attrs.setdefault(cn, set()).add(t.id)
-    written, rebound, cls_written, dflt = {}, {}, {}, []
+    written, rebound, cls_written, dflt, passed = {}, {}, {}, [], {}
     funcs = [n for n in ast.walk(tree) if isinstance(n, (ast.FunctionDef, ast.AsyncFunctionDef))]
     owner_class = {}
     for cn, c in classes.items():
@@ -148,6 +148,13 @@ def scan(mod):
                         dflt.append((fn, _base(q), n.lineno))
                 elif isinstance(q, ast.Name) and q.id in glob:
                     rebound.setdefault(q.id, (fn.name, n.lineno))
+            if isinstance(n, ast.Call):
+                # a module-level container handed to another function may be written there (over-approximation: it is then treated as state)
+                for a_ in list(n.args) + [k_.value for k_ in n.keywords]:
+                    if isinstance(a_, ast.Name):
+                        g = resolve(a_.id)
+                        if g and isinstance(mod.__dict__.get(g), CONTAINERS) and not isinstance(n.func, ast.Attribute):
+                            passed.setdefault(g, (fn.name, n.lineno))
             if isinstance(n, ast.Call) and isinstance(n.func, ast.Attribute) and n.func.attr in MUTATORS:
                 g = resolve(_base(n.func.value))
                 if g:
@@ -159,6 +166,20 @@ def scan(mod):
                         cls_written.setdefault((cn, a), (fn.name, n.lineno))
                 if _base(n.func.value) in dparams:
                     dflt.append((fn, _base(n.func.value), n.lineno))
+    # containers passed on are state only if some function of the module stores through a parameter at all
+    param_store = False
+    for fn in funcs:
+        ps = {a.arg for a in fn.args.args}
+        for n in ast.walk(fn):
+            tg = n.targets if isinstance(n, ast.Assign) else ([n.target] if isinstance(n, ast.AugAssign) else [])
+            for q in tg:
+                if isinstance(q, ast.Subscript) and _base(q) in ps:
+                    param_store = True
+            if isinstance(n, ast.Call) and isinstance(n.func, ast.Attribute) and n.func.attr in MUTATORS and _base(n.func.value) in ps:
+                param_store = True
+    if param_store:
+        for g, where in passed.items():
+            written.setdefault(g, where)
     for g, where in written.items():
         v = mod.__dict__.get(g)
         if isinstance(v, CONTAINERS):
@@ -171,6 +192,7 @@ def scan(mod):
         v = getattr(c, a, None) if c is not None else None
         if isinstance(v, CONTAINERS):
             _register('container', mod, '%s.%s' % (cn, a), v, where)
+    scan_closures(mod)
     for fn, p, line in dflt:
         f = mod.__dict__.get(fn.name)
         f = getattr(f, '__wrapped__', f)
@@ -184,11 +206,45 @@ def scan(mod):
                 _register('container', mod, '%s(%s=)' % (fn.name, p), v, (fn.name, line))
 
 
+def scan_closures(mod):
+    """containers held in closure cells of the module's functions (decorator-made memo tables): state that survives a call"""
+    import types
+    seen = set()
+
+    def walk(fn, label, depth=0):
+        if not isinstance(fn, types.FunctionType) or id(fn) in seen or depth > 4:
+            return
+        seen.add(id(fn))
+        for var, cell in zip(fn.__code__.co_freevars, fn.__closure__ or ()):
+            try:
+                v = cell.cell_contents
+            except ValueError:
+                continue
+            if isinstance(v, CONTAINERS):
+                _register('container', mod, 'closure:%s.%s' % (label, var), v, (label, fn.__code__.co_firstlineno))
+            elif isinstance(v, types.FunctionType):
+                walk(v, label, depth + 1)
+        w = getattr(fn, '__wrapped__', None)
+        if w is not None:
+            walk(w, label, depth + 1)
+    for name, v in list(mod.__dict__.items()):
+        if isinstance(v, types.FunctionType) and (getattr(v, '__module__', None) == mod.__name__):
+            walk(v, name)
+        elif isinstance(v, type) and getattr(v, '__module__', None) == mod.__name__:
+            for mname, m in list(vars(v).items()):
+                f_ = getattr(m, '__func__', m)
+                if isinstance(f_, types.FunctionType):
+                    walk(f_, '%s.%s' % (name, mname))
+
+
 def _register(kind, mod, name, obj, where):
     for e in STATE:
-        if e['owner'] is mod and e['name'] == name:
+        if (e['owner'] is mod and e['name'] == name) or (obj is not None and e.get('obj') is obj):
             return
-    snap = copy.deepcopy(obj) if kind == 'container' else copy.deepcopy(mod.__dict__[name])
+    try:
+        snap = copy.deepcopy(obj) if kind == 'container' else copy.deepcopy(mod.__dict__[name])
+    except Exception:
+        snap = copy.copy(obj) if kind == 'container' else mod.__dict__[name]
     STATE.append(dict(kind=kind, owner=mod, name=name, obj=obj, snap=snap, where='%s:%s line %d' % (mod.__name__, where[0], where[1])))
 
 
